@@ -595,3 +595,52 @@ func Mark(e Entry, fields map[string]json.RawMessage, name string, p []byte) Slo
 	s.Got = append([]byte{}, enc1[s.Start:s.Start+s.Width]...)
 	return s
 }
+
+// FieldSlot is where one fixed-width own field sits in an encoding (found by marking).
+type FieldSlot struct {
+	Name         string
+	Start, Width int
+	// Chain: the field directly follows the previous marked field in the declaration, separated only
+	// by Between bytes of fixed-width count fields (derived, so not markable themselves).
+	Chain   bool
+	Between int
+}
+
+// Layout marks every fixed-width, non-count own field of the structure in declaration order and
+// returns the slots of those whose slot is well defined, plus the end of the parameter block
+// (1 + 2*WordCount; -1 when the structure does not encode).
+func Layout(e Entry, fields map[string]json.RawMessage) (slots []FieldSlot, paramEnd int) {
+	cmd := New(e)
+	if err := Restore(cmd, fields); err != nil {
+		return nil, -1
+	}
+	chain, between := false, 0
+	for _, f := range OwnFields(cmd) {
+		w := FixedWidth(f.Type)
+		if w == 0 {
+			chain, between = false, 0
+			continue
+		}
+		if IsCountField(e.Name, f.Name) {
+			between += w
+			continue
+		}
+		sl := Mark(e, fields, f.Name, nil)
+		if sl.ProblemKind != "" || sl.Width != sl.TypeWidth {
+			chain, between = false, 0
+			continue
+		}
+		slots = append(slots, FieldSlot{f.Name, sl.Start, sl.Width, chain, between})
+		chain, between = true, 0
+	}
+	paramEnd = -1
+	if enc, err := safeMarshal(cmd); err == nil && len(enc) >= 3 {
+		paramEnd = 1 + 2*int(enc[0])
+	}
+	return slots, paramEnd
+}
+
+// SameBlock reports whether two slot starts lie in the same block (parameters or data).
+func SameBlock(a, b, paramEnd int) bool {
+	return paramEnd > 0 && ((a < paramEnd && b < paramEnd) || (a >= paramEnd+2 && b >= paramEnd+2))
+}
